@@ -180,6 +180,16 @@ func (sb *seqbag) AddSequenceChar(name string, sequence []uint8, comment string)
 	return nil
 }
 
+// reindex rebuilds the name index from the row list. It must be called after
+// sequence names have been edited in place, so that lookups by name (GetSequence,
+// Sort, Concat, ...) keep finding the rows under their current names.
+func (sb *seqbag) reindex() {
+	sb.seqmap = make(map[string]*seq, len(sb.seqs))
+	for _, s := range sb.seqs {
+		sb.seqmap[s.name] = s
+	}
+}
+
 // Append a string to all sequence names of the alignment
 // If right is true, then append it to the right of each names,
 // otherwise, appends it to the left
@@ -192,6 +202,7 @@ func (sb *seqbag) AppendSeqIdentifier(identifier string, right bool) {
 				seq.name = identifier + seq.name
 			}
 		}
+		sb.reindex()
 	}
 }
 
@@ -285,6 +296,7 @@ func (sb *seqbag) CleanNames(namemap map[string]string) {
 			namemap[old] = seq.name
 		}
 	}
+	sb.reindex()
 }
 
 // Removes all the sequences from the seqbag
@@ -808,6 +820,7 @@ func (sb *seqbag) Rename(namemap map[string]string) {
 		// 	io.PrintMessage("Sequence " + a.seqs[seq].name + " not present in the map file")
 		// }
 	}
+	sb.reindex()
 }
 
 // Shuffle the order of the sequences in the alignment
@@ -835,6 +848,7 @@ func (sb *seqbag) RenameRegexp(regex, replace string, namemap map[string]string)
 		namemap[sb.seqs[seq].name] = newname
 		sb.seqs[seq].name = newname
 	}
+	sb.reindex()
 	return nil
 }
 
@@ -1132,6 +1146,7 @@ func (sb *seqbag) TrimNamesAuto(namemap map[string]string, curid *int) (err erro
 		}
 		seq.name = newname
 	}
+	sb.reindex()
 	return
 }
 
